@@ -51,7 +51,8 @@ def random_files(ctx, rnd, n):
             oq = rnd.choice("\"'")
             # the quote style may differ from one pseudo-attribute to the next
             Q = [rnd.choice("\"'") if rnd.random() < 0.4 else oq for _ in range(5)]
-            xml = "<?xml version=%s1.0%s encoding=%sUTF-8%s%s?>" % (xq, xq, xq, xq, rnd.choice(["", " standalone=%sno%s" % (xq, xq)]))
+            enc = rnd.choice(["UTF-8", "UTF-8", "utf-8", "Utf-8"])       # (encoding names are case-insensitive)
+            xml = "<?xml version=%s1.0%s encoding=%s%s%s%s?>" % (xq, xq, xq, enc, xq, rnd.choice(["", " standalone=%sno%s" % (xq, xq)]))
             uid = lambda: rnd.choice(["NONE", "b" * 36, "9-_q"])
             ofx = "<?OFX OFXHEADER=%s200%s VERSION=%s%d%s SECURITY=%s%s%s OLDFILEUID=%s%s%s NEWFILEUID=%s%s%s?>" % (
                 Q[0], Q[0], Q[1], rnd.choice([200, 201, 202, 203, 210, 211, 220]), Q[1], Q[2], rnd.choice(["NONE", "TYPE1"]), Q[2],
